@@ -279,12 +279,31 @@ pub fn ops_strategy(n_peers: u8, mix: Mix, max_fragments: usize) -> BoxedStrateg
             ]
         })
         .boxed();
+    // many requests to one peer that never answers: they all end in one go (more outcomes at once than
+    // the handler's channel to the application holds)
+    let burst_fail = (0u8..n, 0u8..n, 52u8..100, any::<bool>())
+        .prop_map(|(from, to, k, with_record)| {
+            let mut v = vec![Op::DeliverAll];
+            for j in 0..k {
+                v.push(Op::Submit { from, to, body: if j % 3 == 0 { Body::Talk(j) } else { Body::Ping }, with_record });
+            }
+            // whatever was emitted is lost, then the time-outs run out
+            for _ in 0..6 {
+                v.push(Op::Drop(0));
+            }
+            for _ in 0..5 {
+                v.push(Op::Advance(Dt::TimeoutPlus));
+                v.push(Op::Drop(0));
+            }
+            v
+        })
+        .boxed();
     let frag = match mix {
         Mix::Identity => prop_oneof![18 => single, 12 => attack, 2 => spoof_race, 1 => early_replay].boxed(),
         Mix::Exemptions => prop_oneof![6 => single, 1 => attack].boxed(),
         Mix::Tamper => prop_oneof![30 => single, 6 => exchange, 1 => spoof_race].boxed(),
         Mix::Replay => prop_oneof![30 => single, 6 => exchange, 1 => late_handshake, 1 => early_replay].boxed(),
-        _ => single,
+        _ => prop_oneof![60 => single, 1 => burst_fail].boxed(),
     };
     proptest::collection::vec(frag, 1..max_fragments)
         .prop_map(|v| v.into_iter().flatten().collect())
